@@ -23,9 +23,12 @@ TEXTS = [
     b'p = a pl = { b , c , d } pl += { e } sec { p = f pl = { g } in x { q = h } } m { p = i } m { pl = { j , k } } t one { p = l } t one { p = m2 }',
     b'fn ( a , "b c" , d ) s = "x" sl += { y , z } include ( "inc.conf" ) p = n p = o pl = { } sec { include ( "inc2.conf" ) s = q }',
     b'/* note */ i = 5 # c\n t a { in b { q = r } in b { q = s } } t a { } pl = { u } i = 6',
+    # the same sections re-opened from another input (file names recorded per section are replaced, not leaked)
+    b'sec { s = a p = s1 } include ( "inc3.conf" ) sec { s = b } t one { p = z } include ( "inc3.conf" ) sec { include ( "inc3.conf" ) }',
 ]
 TOKEN = re.compile(rb'"[^"]*"|/\*.*?\*/|#[^\n]*\n|\+=|[{}()=,]|[^\s{}()=,]+', re.S)
 FILES = ['file %s file %s' % (hx(b'inc.conf'), hx(b'p = inc1\npl += {inc2}\n')), 'file %s file %s' % (hx(b'inc2.conf'), hx(b'p = inc3\n')),
+         'file %s file %s' % (hx(b'inc3.conf'), hx(b'sec { p = incsec in x { q = i3 } }\nt one { pl += {i4} }\n')),
          'file %s dir' % hx(b'spdir'), 'file %s file %s' % (hx(b'spdir/only.conf'), hx(b'i = 1\n'))]
 
 
@@ -62,6 +65,8 @@ def generate(rng, tier):
                  'setcomment 0 %s %s' % (hx(b'sl'), hx(b'note')), 'setmulti 0 %s %s %s' % (hx(b'sl'), hx(b'x'), hx(b'y')), 'setlist 0 %s str %s' % (hx(b'sl'), hx(b'z')),
                  'parse_buf 0 ' + hx(b'm { p = w pl += {x} }\n'), 'parse_buf 0 ' + hx(b'pl = {'), 'parse_buf 0 ' + hx(b'include("inc.conf")\n'),
                  'parse_file 0 ' + hx(b'only.conf'), 'setstr 0 %s - 0' % hx(b's'), 'print 0 0', 'setopt 0 %s %s' % (hx(b'sec|p'), hx(b'v4')),
+                 'parse_file 0 ' + hx(b'inc3.conf'), 'parse_buf 0 ' + hx(b'sec { in x { } }\nt one { }\n'), 'parse_buf 0 ' + hx(b'sec { in x {'),
+                 'failat 1', 'failat 2', 'failat 0',
                  'setint 0 %s 1 0' % hx(b'i'), 'setmulti 0 %s %s %s' % (hx(b'pl'), hx(b'ok'), hx(b'-'))]
     for _ in range(150 if tier == 'quick' else 4000):
         n += 1
